@@ -10,8 +10,8 @@ from mc import lib
 PROPERTY = 'C17'
 RULE = ('full product: every sorted list (multiset) A of length 0..L over the grid {100,100.25,100.5,101,102,200} x every '
         'such list B x {th: 0,0.25,0.5,1,150; ppm: 0,2500,5000,10000,1e6} x {all,closest,largest} x every intensity '
-        'assignment over {1,2,5}; fragment layer: every subset of <=3 of 6 real fragments in every order x every subset '
-        'of <=3 of 6 peaks in every order x tolerance x mode; a state = one list A (all B inside); non-trivial = A '
+        'assignment over {0,1,2,5}; fragment layer: every subset of <=3 of 6 real fragments in every order x every subset '
+        'of <=3 of 6-8 peaks (one duplicate m/z, one zero intensity) in every order x tolerance x mode; a state = one list A (all B inside); non-trivial = A '
         'non-empty')
 ASSUMPTIONS = ['window bounds are computed with the expression of the statement (mz +- tol, or mz*tol/1e6 for ppm) in '
                'IEEE double arithmetic; grid values and Th tolerances are dyadic so inclusive bounds are unambiguous',
@@ -21,7 +21,7 @@ ASSUMPTIONS = ['window bounds are computed with the expression of the statement 
 GRID = [100.0, 100.25, 100.5, 101.0, 102.0, 200.0]
 TH = [0.0, 0.25, 0.5, 1.0, 150.0]
 PPM = [0.0, 2500.0, 5000.0, 10000.0, 1e6]
-INT = [1.0, 2.0, 5.0]
+INT = [0.0, 1.0, 2.0, 5.0]   # 0: profile-mode spectra carry zero-intensity points
 
 
 def describe(tier):
@@ -134,14 +134,16 @@ def check(case, ctx):
             frs_all = sorted(frs_all, key=lambda f: (f.ion_type, f.start, f.end))[:6]
             base = sorted(f.mz for f in frs_all)
             # peaks: exactly on fragment 0, +0.25 above fragment 1, between, far away, and 0.5 below fragment 2
-            peaks_all = [base[0], base[1] + 0.25, base[2] - 0.5, base[3] + 0.125, 5000.0, base[0] + 0.5]
-            ints_all = [1.0, 2.0, 5.0, 2.0, 1.0, 5.0]
+            # ... plus a second peak at exactly the m/z of peak 0 (merged scans) and a zero-intensity point
+            peaks_all = [base[0], base[1] + 0.25, base[2] - 0.5, base[3] + 0.125, 5000.0, base[0] + 0.5, base[0],
+                         base[1] + 0.125]
+            ints_all = [1.0, 2.0, 5.0, 2.0, 1.0, 5.0, 3.0, 0.0]
             tolerances = (('th', 0.0), ('th', 0.25), ('th', 0.5), ('ppm', 0.0), ('ppm', 2000.0))
         chosen = [frs_all[i] for i in case['fr']]
         nm = 0
         nsub = 0
         for npk in (0, 1, 2, 3):
-            for pk in itertools.permutations(range(6), npk):
+            for pk in itertools.permutations(range(len(peaks_all)), npk):
                 mzs = [peaks_all[j] for j in pk]
                 ints = [ints_all[j] for j in pk]
                 for typ, tol in tolerances:
@@ -195,6 +197,8 @@ def check(case, ctx):
                             ctx.fail('fragment-matches', {f.label: [mzs[j] for j in exp_sets[id(f)]] for f in chosen},
                                      gotpairs, call=[case['fr'], mzs, ints, tol, typ, mode])
                             continue
+                        if len(set(mzs)) < len(mzs) or sum(ints) == 0:
+                            continue     # share / coverage clauses: spectra without duplicate m/z and with some intensity
                         # intensity share: distinct matched peaks / total
                         matched_peaks = sorted(set(j for j in range(len(mzs)) if any(m.mz == mzs[j] for m in got)))
                         share = sum(ints[j] for j in matched_peaks) / sum(ints)
